@@ -407,6 +407,26 @@ def run_error_rs(facts, rep):
 WITNESS_DIR = "witness"
 
 
+def io_error_origin(facts, rep, rule="R12.3i"):
+    """an io::Error inside a VfsError is one that std (the OS) produced: apart from the seek arithmetic of the in-memory read
+    handles (InvalidInput, like std's own Cursor) nothing in the crate makes one up.  A condition of the crate's own — not
+    available, not supported, refused — has a VfsErrorKind; wrapped in a hand-made io::Error it is classified as IoError"""
+    inter = Inter(facts)
+    n = 0
+    for b in facts.bodies:
+        if "::tests::" in b.id or b.file.startswith("src/test_macros"):
+            continue
+        handle = bool(b.impl) and ("ReadableFile" in b.impl["self_ty"] or "WritableFile" in b.impl["self_ty"])
+        for s_ in inter.sites(b):
+            if s_.path.startswith(("std::io::Error::", "std::io::error::Error::")) and \
+                    s_.path.rsplit("::", 1)[-1] in ("new", "other", "from_raw_os_error", "last_os_error"):
+                n += 1
+                rep.ob(rule, b.id, "io::Error values come from std, not from the crate", handle, "in-memory handle arithmetic" if handle else
+                       "%s constructs an io::Error itself (%s): the condition is classified as IoError(..) instead of the VfsErrorKind that "
+                       "names it" % (b.id, s_.path.rsplit("::", 1)[-1]), s_.line)
+    return n
+
+
 def run_witness(rep, ctx):
     """compile-fail witnesses for the type-level remainder (thorough tier)"""
     V = ctx["V"]
@@ -436,6 +456,12 @@ def run(facts, rep, tier, ctx):
     from ..panics import Discharger, load_records
     D = Discharger(facts, load_records(os.path.join(ctx["V"], "rules", "panic_records.json")))
     from ..report import Report
+    # the exists-kinds are a classification of create_dir's occupant: an error conversion that produces them classifies
+    # every AlreadyExists of every operation as "a directory is there"
+    from .c20 import tolerated_kind_sites
+    tolerated_kind_sites(facts, rep, "R12.3k", D)
+    k_io = io_error_origin(facts, rep)
+    rep.floor("io::Error construction sites (in-memory seek arithmetic)", k_io, 2)
     scratch = Report("x")
     c06.joiner_rules(facts, scratch, D)
     for o in scratch.obligations:
